@@ -6,6 +6,7 @@ C05 - inheritance is computed as Python computes it.  Decides consumers and the 
   R05.3 mro() hands out the stored linearisation starting with the class itself
   R05.4 bases are resolved in the scope enclosing the class, in both resolution passes; generic subscripts are stripped
   R05.5 masking of inherited members ignores documentation privacy (templatewriter.util.unmasked_attrs)
+  R05.6 class-private names (__x) are not matched across classes (Python's name mangling)
 Does not decide: that mro._merge is C3 (an algorithmic equality with type.__mro__).
 """
 from __future__ import annotations
@@ -217,4 +218,26 @@ def run(repo: Repo, chk: Check, thorough: bool = False) -> None:
     if not found:
         raise AnalysisError('R05.5: the collection of masking names over baselist[1:] was not found in unmasked_attrs')
     chk.require('R05.5', 1)
+
+    # ------------------------------------------------------------------ R05.6
+    # inside a class body Python mangles `__name` to `_Class__name`: `Base.__check` and `Derived.__check` are two independent attributes.  The
+    # places that match a member of one class against the same NAME in another class of the linearisation must leave such names alone
+    NAME_MATCHERS = [f'{M}.Inheritable.docsources', 'pydoctor.templatewriter.pages.get_override_info',
+                     'pydoctor.templatewriter.util.overriding_subclasses', 'pydoctor.templatewriter.util.unmasked_attrs']
+
+    def _is_mangling_test(g: Func) -> bool:
+        starts = any(isinstance(c, ast.Call) and call_name(c) == 'startswith' and c.args and isinstance(c.args[0], ast.Constant) and c.args[0].value == '__' for c in calls_in(g))
+        ends = any(isinstance(c, ast.Call) and call_name(c) == 'endswith' and c.args and isinstance(c.args[0], ast.Constant) and c.args[0].value == '__' for c in calls_in(g))
+        return starts and ends
+    helpers = {g.name for g in repo.funcs.values() if g.mod.name.startswith('pydoctor.') and '.test' not in g.mod.name and _is_mangling_test(g) and len(g.body()) <= 4}
+    for q in NAME_MATCHERS:
+        f = repo.funcs.get(q)
+        if f is None:
+            raise AnalysisError(f'R05.6: {q} no longer exists: re-confirm the table of cross-class name matchers')
+        okn = _is_mangling_test(f) or any(call_name(c) in helpers for c in calls_in(f))
+        chk.ob('R05.6', f'{q} :: class-private names (__x) are not matched across classes', okn,
+               'tests the mangling rule' if okn else
+               'members are matched by their source spelling only: `Derived.__check` inherits the docstring of `Base.__check`, is shown as overriding it and hides '
+               'it from the inherited members, although at run time `_Base__check` and `_Derived__check` are unrelated attributes', f.loc)
+    chk.require('R05.6', 4)
 
